@@ -45,7 +45,7 @@ func init() {
 				}
 				return 80_000
 			}, Run: c17Renderer,
-				Min: map[string]int64{"pairs": 60000, "A_truncated_stream": 10000, "A_decode_error": 10000, "A_mid_path": 5000, "B_gradient_from_default_registers": 5000, "B_smooth_first": 5000, "draws_compared": 50000, "pixel_pairs": 2000, "A_other_rectangle": 10000, "B_viewbox_is_A_viewbox_moved": 3000, "B_palette_equals_A_palette": 3000, "pixel_pairs_A_into_empty_rectangle": 500, "pixel_pairs_operator_left_by_A": 100}},
+				Min: map[string]int64{"pairs": 60000, "A_truncated_stream": 10000, "A_decode_error": 10000, "A_mid_path": 5000, "B_gradient_from_default_registers": 5000, "B_smooth_first": 5000, "draws_compared": 50000, "pixel_pairs": 2000, "A_other_rectangle": 10000, "B_viewbox_is_A_viewbox_moved": 3000, "B_palette_equals_A_palette": 3000, "pixel_pairs_A_into_empty_rectangle": 500, "B_degenerate_viewbox": 3000, "pixel_pairs_operator_left_by_A": 100}},
 		},
 	})
 }
@@ -453,6 +453,22 @@ func c17Renderer(c *run.Ctx, idx uint64) {
 			c.Count("B_palette_equals_A_palette", 1)
 		}
 	}
+	degenerateB := false
+	if r.Chance(1, 10) {
+		// a viewBox without extent in x and/or y (the decoder accepts it): whatever a
+		// Renderer makes of it, a reused one must make the same of it as a fresh one
+		x, y := float32(r.Range(-30, 30)), float32(r.Range(-30, 30))
+		switch r.Intn(3) {
+		case 0:
+			vbB = ivg.ViewBox{MinX: x, MinY: y, MaxX: x, MaxY: y}
+		case 1:
+			vbB = ivg.ViewBox{MinX: x, MinY: y, MaxX: x, MaxY: y + float32(r.Range(1, 60))}
+		default:
+			vbB = ivg.ViewBox{MinX: x, MinY: y, MaxX: x + float32(r.Range(1, 60)), MaxY: y}
+		}
+		degenerateB = true
+		c.Count("B_degenerate_viewbox", 1)
+	}
 	var eB encode.Encoder
 	eB.Reset(vbB, palB)
 	eB.HighResolutionCoordinates = true
@@ -472,7 +488,7 @@ func c17Renderer(c *run.Ctx, idx uint64) {
 	}
 	c.Count("B_smooth_first", 1)
 	rect := image.Rect(0, 0, r.Range(1, 200), r.Range(1, 600)).Add(image.Pt(r.Intn(30), r.Intn(30)))
-	pixels := r.Chance(1, 8)
+	pixels := r.Chance(1, 8) && !degenerateB // non-finite coordinates are not given to golang.org/x/image/vector (DESIGN 6.5)
 	if pixels {
 		rect = image.Rect(0, 0, r.Range(1, 100), r.Range(1, 100)).Add(image.Pt(r.Intn(30), r.Intn(30)))
 	}
